@@ -469,6 +469,507 @@ theorem ok_of_checks (G : GCtx) (imgWords : Nat)
       rw [hd] at this
       simpa using this
     const_lo := fun v l j k hm hd => (hconst v l j k hm hd).2.2
-    const_ge := fun v l j k hm hd => (hconst v l j k hm hd).2.1 }
+    const_ge := fun v l j k hm hd => (hconst v l j k hm hd).2.1
+    const_data := fun v l j k hm hd => (hconst v l j k hm hd).1 }
+
+/-! ### Facts by construction -/
+
+theorem genProcs_spec (cg : CGOut) : ∀ (ps : List X.Proc) (i : Nat) (gs : GS) (pos : Nat) (procs : List PInfo),
+    genProcs cg ps i gs pos = some procs →
+    procs.map (·.p) = ps ∧
+    ∀ pi ∈ procs, genStmt { tbl := cg.tbl, scope := pi.p.name, frame := pi.idx, exitLabel := (frameOf cg pi.idx).exitLabel }
+      (optStmt (annotS (fun _ => none) pi.p.body)) pi.gs1 = .ok (pi.code, pi.gs2) := by
+  intro ps
+  induction ps with
+  | nil =>
+    intro i gs pos procs h
+    simp only [genProcs, Option.some.injEq] at h
+    subst h
+    exact ⟨rfl, fun pi hpi => by simp at hpi⟩
+  | cons p ps ih =>
+    intro i gs pos procs h
+    unfold genProcs at h
+    simp only at h
+    split at h
+    · simp at h
+    · rename_i code gs2 hgen
+      split at h
+      · simp at h
+      · rename_i rest hrest
+        simp only [Option.some.injEq] at h
+        subst h
+        obtain ⟨h1, h2⟩ := ih _ _ _ _ hrest
+        refine ⟨by simp [h1], ?_⟩
+        intro pi hpi
+        simp only [List.mem_cons] at hpi
+        rcases hpi with rfl | hpi
+        · exact hgen
+        · exact h2 pi hpi
+
+theorem lookup_map_val {α β} (f : α → String) (g : α → β) : ∀ (l : List α) (n : String) (b : β),
+    (l.map fun x => (f x, g x)).lookup n = some b → ∃ x ∈ l, f x = n ∧ g x = b := by
+  intro l
+  induction l with
+  | nil => intro n b h; simp at h
+  | cons x rest ih =>
+    intro n b h
+    simp only [List.map_cons, List.lookup_cons] at h
+    split at h
+    · rename_i heq
+      simp only [Option.some.injEq] at h
+      have hn : n = f x := by simpa using heq
+      exact ⟨x, by simp, hn.symm, h⟩
+    · obtain ⟨y, hy, h1, h2⟩ := ih n b h
+      exact ⟨y, List.mem_cons_of_mem _ hy, h1, h2⟩
+
+theorem lookup_map_some {α β} (f : α → String) (g : α → β) : ∀ (l : List α) (n : String),
+    n ∈ l.map f → ∃ b, (l.map fun x => (f x, g x)).lookup n = some b := by
+  intro l
+  induction l with
+  | nil => intro n h; simp at h
+  | cons x rest ih =>
+    intro n h
+    simp only [List.map_cons, List.lookup_cons]
+    by_cases hx : n = f x
+    · subst hx; simp
+    · have : (n == f x) = false := by simpa using hx
+      rw [this]
+      simp only [List.map_cons, List.mem_cons] at h
+      rcases h with h | h
+      · exact absurd h hx
+      · exact ih n h
+
+section genv
+variable (P : X.Program) (fuel : Nat)
+
+theorem v2_genv_lookup (n : String) :
+    (v2Xc P fuel).genv.lookup n =
+      ((P.globals.map fun d => (d.name, GBind.var)).lookup n).or ((P.procs.map fun p => (p.name, GBind.proc p)).lookup n) := by
+  simp only [v2Xc, List.lookup_append]
+
+theorem v2_genv_vars (hnd : (P.globals.map X.Decl.name ++ P.procs.map (·.name)).Nodup) (n : String) :
+    n ∈ P.globals.map X.Decl.name ↔ (v2Xc P fuel).genv.lookup n = some .var := by
+  rw [v2_genv_lookup]
+  constructor
+  · intro h
+    obtain ⟨b, hb⟩ := lookup_map_some X.Decl.name (fun _ => GBind.var) P.globals n h
+    rw [hb]
+    obtain ⟨_, _, _, h2⟩ := lookup_map_val _ _ _ _ _ hb
+    simp [← h2]
+  · intro h
+    cases hg : (P.globals.map fun d => (d.name, GBind.var)).lookup n with
+    | some b =>
+      obtain ⟨x, hx, h1, _⟩ := lookup_map_val _ _ _ _ _ hg
+      exact List.mem_map.mpr ⟨x, hx, h1⟩
+    | none =>
+      rw [hg] at h
+      simp only [Option.none_or] at h
+      obtain ⟨_, _, _, h2⟩ := lookup_map_val _ _ _ _ _ h
+      simp at h2
+
+theorem v2_no_vals (n : String) (w : Word) : (v2Xc P fuel).genv.lookup n ≠ some (.val w) := by
+  rw [v2_genv_lookup]
+  intro h
+  cases hg : (P.globals.map fun d => (d.name, GBind.var)).lookup n with
+  | some b =>
+    rw [hg] at h
+    obtain ⟨_, _, _, h2⟩ := lookup_map_val _ _ _ _ _ hg
+    simp only [Option.some_or, Option.some.injEq] at h
+    rw [h] at h2
+    simp at h2
+  | none =>
+    rw [hg] at h
+    simp only [Option.none_or] at h
+    obtain ⟨_, _, _, h2⟩ := lookup_map_val _ _ _ _ _ h
+    simp at h2
+
+theorem v2_proc_lookup (f : String) (p : X.Proc) (h : (v2Xc P fuel).genv.lookup f = some (.proc p)) :
+    p ∈ P.procs ∧ p.name = f := by
+  rw [v2_genv_lookup] at h
+  cases hg : (P.globals.map fun d => (d.name, GBind.var)).lookup f with
+  | some b =>
+    rw [hg] at h
+    obtain ⟨_, _, _, h2⟩ := lookup_map_val _ _ _ _ _ hg
+    simp only [Option.some_or, Option.some.injEq] at h
+    rw [h] at h2
+    simp at h2
+  | none =>
+    rw [hg] at h
+    simp only [Option.none_or] at h
+    obtain ⟨x, hx, h1, h2⟩ := lookup_map_val _ _ _ _ _ h
+    simp only [GBind.proc.injEq] at h2
+    subst h2
+    exact ⟨hx, h1⟩
+
+theorem v2_pnames_mem (hnd : (P.globals.map X.Decl.name ++ P.procs.map (·.name)).Nodup) (f : String)
+    (hf : f ∈ P.procs.map (·.name)) : ∃ p, (v2Xc P fuel).genv.lookup f = some (.proc p) := by
+  rw [v2_genv_lookup]
+  have hng : f ∉ P.globals.map X.Decl.name := by
+    intro hg
+    exact (List.nodup_append.mp hnd).2.2 f hg f hf rfl
+  have h1 : (P.globals.map fun d => (d.name, GBind.var)).lookup f = none := by
+    apply lookup_none_of_not_mem
+    simpa [List.map_map] using hng
+  rw [h1]
+  simp only [Option.none_or]
+  obtain ⟨b, hb⟩ := lookup_map_some (fun p : X.Proc => p.name) (fun p => GBind.proc p) P.procs f hf
+  obtain ⟨x, _, _, h2⟩ := lookup_map_val _ _ _ _ _ hb
+  exact ⟨x, by rw [hb, ← h2]⟩
+
+theorem v2_genv_none (n : String) (h1 : n ∉ P.globals.map X.Decl.name) (h2 : n ∉ P.procs.map (·.name)) :
+    (v2Xc P fuel).genv.lookup n = none := by
+  apply lookup_none_of_not_mem
+  simp only [v2Xc, List.map_append, List.map_map, List.mem_append, not_or]
+  exact ⟨by simpa using h1, by simpa using h2⟩
+
+end genv
+
+/-! ### The run of the reference semantics -/
+
+def v2St0 (P : X.Program) (inp : X.Input) : X.St :=
+  { gvars := P.globals.map (fun d => (d.name, none)), arrays := #[], locals := [],
+    io := Isa.IOSt.init inp.stdin inp.files, calls := [], steps := 0, depth := 0 }
+
+theorem run_v2 (P : X.Program) (inp : X.Input) (fuel : Nat) (β : X.Behaviour)
+    (hg : P.globals.all isVarDecl = true) (hrun : X.run P inp fuel = .defined β) :
+    ∃ m, P.procs.find? (·.name == "main") = some m ∧
+      ((∃ r s, X.callUser fuel (v2Xc P fuel) m [] (v2St0 P inp) = .ok r s ∧
+          β.exit = 0 ∧ β.events = s.io.log.reverse ∧ β.stdinConsumed = inp.stdin.length - s.io.stdin.length) ∨
+       (∃ code s, X.callUser fuel (v2Xc P fuel) m [] (v2St0 P inp) = .exit code s ∧
+          β.exit = code ∧ β.events = s.io.log.reverse ∧ β.stdinConsumed = inp.stdin.length - s.io.stdin.length)) := by
+  unfold X.run at hrun
+  cases hcp : X.checkProgram P with
+  | error w => rw [hcp] at hrun; simp at hrun
+  | ok u =>
+    rw [hcp] at hrun
+    simp only at hrun
+    rw [bindGlobals_vars P.globals [] [] #[] 0 hg] at hrun
+    simp only [List.reverse_nil, List.nil_append] at hrun
+    cases hck : X.checkProcs (P.globals.map (fun d => (d.name, GBind.var)) ++ P.procs.map fun p => (p.name, GBind.proc p)) P.procs with
+    | error w => rw [hck] at hrun; simp at hrun
+    | ok u2 =>
+      rw [hck] at hrun
+      simp only at hrun
+      cases hfm : P.procs.find? (·.name == "main") with
+      | none => rw [hfm] at hrun; simp at hrun
+      | some m =>
+        rw [hfm] at hrun
+        simp only at hrun
+        refine ⟨m, rfl, ?_⟩
+        have hctx : ({ genv := P.globals.map (fun d => (d.name, GBind.var)) ++ P.procs.map (fun p => (p.name, GBind.proc p)),
+                       impure := X.impureProcs P, limit := fuel } : X.Ctx) = v2Xc P fuel := rfl
+        have hst : ({ gvars := P.globals.map (fun d => (d.name, (none : Option Word))), arrays := #[], locals := [],
+                      io := Isa.IOSt.init inp.stdin inp.files, calls := [], steps := 0, depth := 0 } : X.St)
+            = v2St0 P inp := rfl
+        rw [hctx, hst] at hrun
+        cases hx : X.callUser fuel (v2Xc P fuel) m [] (v2St0 P inp) with
+        | undef w => rw [hx] at hrun; simp at hrun
+        | exit code s =>
+          rw [hx] at hrun
+          simp only [Result.defined.injEq] at hrun
+          right
+          refine ⟨code, s, rfl, ?_⟩
+          rw [← hrun]
+          exact ⟨rfl, rfl, rfl⟩
+        | ok r s =>
+          rw [hx] at hrun
+          simp only [Result.defined.injEq] at hrun
+          left
+          refine ⟨r, s, rfl, ?_⟩
+          rw [← hrun]
+          exact ⟨rfl, rfl, rfl⟩
+
+/-! ### Start-up and exit stub -/
+
+theorem v2_startup (env : Env) (spvI : Int) (iStub iMain : Nat) (k : LabelKind)
+    (hhead : At env.ds 0 [.ref 0x9 "_start" true, .data spvI]) (hstub : At env.ds iStub v1Stub)
+    (hmain : env.ds[iMain]? = some (.label k "main")) (hnd : (labelNames env.ds).Nodup) (mem : Mem) (io : Isa.IOSt) :
+    Steps env (cfg 0 0 0 mem) io (cfg iMain (BitVec.ofNat 32 (env.addr (iStub + 3))) 0 mem) io := by
+  have d0 := hhead.get 0 _ rfl
+  have t0 := hstub.get 0 _ rfl
+  have t1 := hstub.get 1 _ rfl
+  have t2 := hstub.get 2 _ rfl
+  have t3 := hstub.get 3 _ rfl
+  simp only [Nat.add_zero] at d0 t0
+  have lStart := labelIdx_of_nodup _ _ _ _ hnd t0
+  have lExit := labelIdx_of_nodup _ _ _ _ hnd t3
+  have lMain := labelIdx_of_nodup _ _ _ _ hnd hmain
+  have s0 := Step.br (env := env) (cfg 0 0 0 mem) io "_start" iStub (by simpa using d0) lStart
+  have s1 := Step.label (env := env) (cfg iStub 0 0 mem) io _ _ t0
+  have s2 := Step.ldapL (env := env) (cfg (iStub + 1) 0 0 mem) io "_exit" (iStub + 3) t1 lExit
+  have s3 := Step.br (env := env) (cfg (iStub + 1 + 1) (BitVec.ofNat 32 (env.addr (iStub + 3))) 0 mem) io "main" iMain t2 lMain
+  exact Steps.step _ _ _ _ _ _ s0 (Steps.step _ _ _ _ _ _ s1 (Steps.step _ _ _ _ _ _ s2 (Steps.one s3)))
+
+theorem v2_finish (env : Env) (iStub : Nat) (hstub : At env.ds iStub v1Stub) (a b : Word) (mem : Mem) (io : Isa.IOSt)
+    (spv : Nat) (hm1 : mem.read 1 = BitVec.ofNat 32 spv) (hlt : spv + 2 < memWords)
+    (hc : env.isCode (spv + 2) = false) :
+    ∃ c, Steps env (cfg (iStub + 3) a b mem) io c io ∧ Exit env c io 0 := by
+  have t3 := hstub.get 3 _ rfl
+  have t4 := hstub.get 4 _ rfl
+  have t5 := hstub.get 5 _ rfl
+  have t6 := hstub.get 6 _ rfl
+  have t7 := hstub.get 7 _ rfl
+  have s5 := Step.label (env := env) (cfg (iStub + 3) a b mem) io _ _ t3
+  have s6 := Step.ldbm (env := env) (cfg (iStub + 3 + 1) a b mem) io 1 _ t4 (ld_one mem)
+  rw [hm1] at s6
+  have s7 := Step.ldac (env := env) (cfg (iStub + 3 + 1 + 1) a (BitVec.ofNat 32 spv) mem) io 0 t5
+  have hadr : BitVec.ofNat 32 spv + IAm.W 2 = BitVec.ofNat 32 (spv + 2) := ofNat_add_W spv 2
+  have hst : IAm.store env mem (BitVec.ofNat 32 spv + IAm.W 2) (IAm.W 0) = some (mem.write (spv + 2) (IAm.W 0)) := by
+    rw [hadr]; exact store_ofNat _ _ _ _ hlt hc
+  have hne1 : (BitVec.ofNat 32 spv + IAm.W 2).toNat ≠ 1 := by
+    rw [hadr]; exact ofNat_toNat_ne_one _ (by omega) hlt
+  have s8 := Step.stai (env := env) (cfg (iStub + 3 + 1 + 1 + 1) (IAm.W 0) (BitVec.ofNat 32 spv) mem) io 2 _ t6 hst hne1
+  refine ⟨cfg (iStub + 3 + 1 + 1 + 1 + 1) (IAm.W 0) (BitVec.ofNat 32 spv) (mem.write (spv + 2) (IAm.W 0)), ?_, ?_⟩
+  · exact Steps.step _ _ _ _ _ _ s5 (Steps.step _ _ _ _ _ _ s6 (Steps.step _ _ _ _ _ _ s7 (Steps.one s8)))
+  · apply Exit.svcExit
+    · simpa using t7
+    · exact W_zero
+    · show Isa.ld _ ((mem.write (spv + 2) (IAm.W 0)).read 1 + 2) = some 0
+      rw [Mem.read_write_other _ _ _ _ (by omega), hm1]
+      have : (BitVec.ofNat 32 spv + 2 : Word) = BitVec.ofNat 32 (spv + 2) := by
+        have := ofNat_add_W spv 2
+        rw [← this]; rfl
+      rw [this, ld_ofNat _ _ hlt, Mem.read_write_same _ _ _ hlt, W_zero]
+
+/-! ### The whole program -/
+
+/-- From the boot configuration to the exit system call, in the environment of the context. -/
+theorem v2_core (G : GCtx) (ok : G.OK) (fuel : Nat) (mem0 : Mem) (st0 : X.St) (hdepth : st0.depth = 0)
+    (pm : PInfo) (hpm : pm ∈ G.procs) (hname : pm.p.name = "main") (hproc : pm.p.isFunc = false)
+    (spvI : Int) (iStub : Nat) (hhead : At G.env.ds 0 [.ref 0x9 "_start" true, .data spvI]) (hstub : At G.env.ds iStub v1Stub)
+    (hg0 : GRep G st0 mem0) (hm1 : mem0.read 1 = BitVec.ofNat 32 G.spv) :
+    match X.callUser fuel G.xc pm.p [] st0 with
+    | .ok _ s => ∃ c, Steps G.env (cfg 0 0 0 mem0) st0.io c s.io ∧ Exit G.env c s.io 0
+    | .exit code s => ∃ c, Steps G.env (cfg 0 0 0 mem0) st0.io c s.io ∧ Exit G.env c s.io code
+    | .undef _ => True := by
+  have hcs := (all_correct ok fuel).2.2
+  have hpo : pm.po = 1 := by unfold PInfo.po; rw [hproc]; rfl
+  have hmainL : G.env.ds[pm.iPro]? = some (.label pm.kind "main") := by
+    have := (ok.at_pro pm hpm).head
+    rw [hname] at this
+    exact this
+  have t3 := hstub.get 3 _ rfl
+  have hstart := v2_startup G.env spvI iStub pm.iPro pm.kind hhead hstub hmainL ok.nodup mem0 st0.io
+  have haddr := ok.addr_lt _ _ _ t3
+  have hlodef := ok.lo_def
+  have := hcs pm hpm [] st0 (BitVec.ofNat 32 (G.env.addr (iStub + 3))) 0 mem0 G.spv (iStub + 3) .plain "_exit"
+    hg0 hm1 (fun j hj => by simp at hj) (by rw [hdepth]; omega) (by rw [hpo]; simp) (by omega) t3
+    (toNat_ofNat_lt _ haddr).symm
+  simp only [List.map_nil] at this
+  cases hx : X.callUser fuel G.xc pm.p [] st0 with
+  | undef w => trivial
+  | exit code s =>
+    rw [hx] at this
+    obtain ⟨c, hs, he⟩ := this
+    exact ⟨c, hstart.trans hs, he⟩
+  | ok r s =>
+    rw [hx] at this
+    obtain ⟨a', b', mem', hs, _, h1, _⟩ := this
+    have htop := ok.top
+    obtain ⟨c, hf, he⟩ := v2_finish G.env iStub hstub a' b' mem' s.io G.spv h1 htop (ok.code_lo _ (by omega))
+    exact ⟨c, (hstart.trans hs).trans hf, he⟩
+
+open V1Pos in
+/-- **The decidable side condition of the whole-program theorem for programs with several
+    procedures.** -/
+def v2Check (P : X.Program) (st : Stages) (img : Image) : Bool :=
+  P.globals.all isVarDecl &&
+  match genProcs st.cg P.procs 0 { labelCount := P.globals.length } (2 + st.cg.data.length + 8) with
+  | none => false
+  | some procs =>
+    let G := mkG P st img 0 procs
+    decide (st.optimised = peephole st.lowered) && parsedOkB st.optimised && decide (st.optimised.length < 2 ^ 26) &&
+    decide (img.bytes.length ≤ 4 * memWords) && Separated st.optimised &&
+    procs.all (procCheck G) && globalCheck G (img.bytes.length / 4) &&
+    atB G.env.ds 0 [.ref 0x9 "_start" true, .data (spValue st.cg.globalsOffset)] &&
+    atB G.env.ds (2 + st.cg.data.length) v1Stub &&
+    decide (0 ≤ spValue st.cg.globalsOffset) &&
+    (match procs.find? (fun pi => pi.p.name == "main") with
+     | some pm => !pm.p.isFunc
+     | none => false)
+
+theorem procCheck_fuel (P : X.Program) (st : Stages) (img : Image) (f : Nat) (procs : List PInfo) (pi : PInfo) :
+    procCheck (mkG P st img f procs) pi = procCheck (mkG P st img 0 procs) pi := rfl
+
+theorem globalCheck_fuel (P : X.Program) (st : Stages) (img : Image) (f : Nat) (procs : List PInfo) (w : Nat) :
+    globalCheck (mkG P st img f procs) w = globalCheck (mkG P st img 0 procs) w := rfl
+
+/-- **Whole programs with several procedures.**  `st` are the stages of the compilation of `P`,
+    `img` the assembled image; under the decidable check `v2Check` every defined behaviour of `P`
+    is the behaviour of the ISA on `img`. -/
+theorem v2_correct (P : X.Program) (st : Stages) (img : Image) (inp : X.Input) (fuel : Nat) (β : X.Behaviour)
+    (hasm : assembleDirs st.optimised = .ok img) (hchk : v2Check P st img = true)
+    (hrun : X.run P inp fuel = .defined β) :
+    ∃ n code j s' io, Isa.run n (Am.boot img) (Isa.IOSt.init inp.stdin inp.files) = .exited code j s' io ∧
+      code = β.exit ∧ io.log.reverse = β.events ∧ inp.stdin.length - io.stdin.length = β.stdinConsumed := by
+  unfold v2Check at hchk
+  rw [Bool.and_eq_true] at hchk
+  obtain ⟨hgv, hchk⟩ := hchk
+  split at hchk
+  · simp at hchk
+  rename_i procs hprocs
+  simp only [Bool.and_eq_true, decide_eq_true_eq, List.all_eq_true] at hchk
+  obtain ⟨⟨⟨⟨⟨⟨⟨⟨⟨⟨c1, c3⟩, c4⟩, c5⟩, c6⟩, cproc⟩, cglob⟩, chead⟩, cstub⟩, c0⟩, cmain⟩ := hchk
+  obtain ⟨hmap, hgen⟩ := genProcs_spec st.cg _ _ _ _ _ hprocs
+  have g : Good st.optimised img := ⟨parsedOkB_sound _ c3, c4, assembleDirs_ok _ _ hasm, c5, c6⟩
+  have F := facts_of_good st.optimised img g
+  have hp : Peep st.lowered st.optimised (peepSt st.lowered) := by rw [c1]; exact peephole_peep _
+  obtain ⟨G, hG⟩ : ∃ G, G = mkG P st img fuel procs := ⟨_, rfl⟩
+  have hGenv : G.env = v1Env st img := by rw [hG]; rfl
+  have hGprocs : G.procs = procs := by rw [hG]; rfl
+  have hGxc : G.xc = v2Xc P fuel := by rw [hG]; rfl
+  have hGg : G.gnames = P.globals.map X.Decl.name := by rw [hG]; rfl
+  have hGp : G.pnames = P.procs.map (·.name) := by rw [hG]; rfl
+  have hGspv : G.spv = (spValue st.cg.globalsOffset).toNat := by rw [hG]; rfl
+  have hglob : globalCheck G (img.bytes.length / 4) = true := by rw [hG, globalCheck_fuel]; exact cglob
+  have hproc : ∀ pi ∈ G.procs, procCheck G pi = true := by
+    intro pi hpi
+    rw [hG, procCheck_fuel]
+    exact cproc pi (by rw [hGprocs] at hpi; exact hpi)
+  have hbeyond : ∀ w, img.bytes.length / 4 ≤ w → G.env.isCode w = false := by
+    intro w hw
+    rw [hGenv]
+    exact isCode_beyond st.optimised img F F.len4 w hw
+  have hdata : ∀ j v, G.env.ds[j]? = some (.data v) → G.env.addr j % 4 = 0 ∧
+      (Am.boot img).mem.read (G.env.addr j / 4) = BitVec.ofInt 32 v ∧ G.env.isCode (G.env.addr j / 4) = false := by
+    intro j v hd
+    rw [hGenv] at hd ⊢
+    have := boot_data st.optimised img g F _ v (data_get hp j v hd)
+    exact ⟨this.1, this.2.2.1, this.2.2.2⟩
+  have hlabel : ∀ j k l, G.env.ds[j]? = some (.label k l) → G.env.addr (j + 1) = G.env.addr j := by
+    intro j k l hd
+    rw [hGenv] at hd ⊢
+    obtain ⟨hd', hphi⟩ := label_get hp j k l hd
+    show (envOf st.optimised img).addr (phi (peepSt st.lowered) (j + 1)) = (envOf st.optimised img).addr (phi (peepSt st.lowered) j)
+    rw [hphi]
+    exact label_facts st.optimised img.resolved.lens img.resolved.vals 0 _ k l hd'
+  have hhead : At G.env.ds 0 [.ref 0x9 "_start" true, .data (spValue st.cg.globalsOffset)] := by
+    rw [hG]; exact atB_sound _ _ _ chead
+  have hstub : At G.env.ds (2 + st.cg.data.length) v1Stub := by
+    rw [hG]; exact atB_sound _ _ _ cstub
+  -- facts of the global check needed before `GCtx.OK`
+  have hglob' := hglob
+  unfold globalCheck at hglob'
+  simp only [Bool.and_eq_true, decide_eq_true_eq, List.all_eq_true] at hglob'
+  obtain ⟨⟨⟨⟨⟨⟨⟨⟨⟨_, _⟩, _⟩, _⟩, _⟩, _⟩, _⟩, _⟩, ha1⟩, hnd⟩ := hglob'
+  rw [hGg, hGp] at hnd
+  have hd1 := hhead.get 1 _ rfl
+  obtain ⟨_, hm1, hc1⟩ := hdata 1 _ hd1
+  rw [ha1] at hm1 hc1
+  have hm1' : (Am.boot img).mem.read 1 = BitVec.ofNat 32 G.spv := by
+    have h41 : 4 / 4 = 1 := rfl
+    rw [h41] at hm1
+    rw [hm1, hGspv, ← W_ofNat, Int.toNat_of_nonneg c0]
+  have ok : G.OK := by
+    apply ok_of_checks G (img.bytes.length / 4) hproc hglob
+    · intro pi hpi
+      rw [hGprocs] at hpi
+      have := hgen pi hpi
+      rw [hG]
+      exact this
+    · exact hbeyond
+    · exact hc1
+    · intro f p h
+      rw [hGxc] at h
+      obtain ⟨hpm, hn⟩ := v2_proc_lookup P fuel f p h
+      rw [← hmap] at hpm
+      obtain ⟨pi, hpi, hpp⟩ := List.mem_map.mp hpm
+      exact ⟨pi, by rw [hGprocs]; exact hpi, hpp, hn⟩
+    · intro n
+      rw [hGxc, hGg]
+      exact v2_genv_vars P fuel hnd n
+    · intro n w
+      rw [hGxc]
+      exact v2_no_vals P fuel n w
+    · intro f p h
+      rw [hGxc] at h
+      obtain ⟨hpm, hn⟩ := v2_proc_lookup P fuel f p h
+      rw [hGp, ← hn]
+      exact List.mem_map.mpr ⟨p, hpm, rfl⟩
+    · intro f hf
+      rw [hGp] at hf
+      rw [hGxc]
+      exact v2_pnames_mem P fuel hnd f hf
+    · intro n h1 h2
+      rw [hGxc]
+      rw [hGg] at h1
+      rw [hGp] at h2
+      exact v2_genv_none P fuel n h1 h2
+  -- the run
+  obtain ⟨m, hfind, hcases⟩ := run_v2 P inp fuel β hgv hrun
+  cases hfm : procs.find? (fun pi => pi.p.name == "main") with
+  | none => rw [hfm] at cmain; simp at cmain
+  | some pm =>
+    rw [hfm] at cmain
+    simp only [Bool.not_eq_true'] at cmain
+    have hpm : pm ∈ G.procs := by rw [hGprocs]; exact List.mem_of_find?_eq_some hfm
+    have hname : pm.p.name = "main" := by
+      have := List.find?_some hfm
+      simpa using this
+    have hpmm : pm.p = m := by
+      have h1 : (procs.map (·.p)).find? (fun p => p.name == "main") = some pm.p := by
+        rw [List.find?_map]
+        show Option.map (·.p) (procs.find? (fun pi => pi.p.name == "main")) = _
+        rw [hfm]; rfl
+      rw [hmap, hfind] at h1
+      exact (Option.some.inj h1).symm
+    have hg0 : GRep G (v2St0 P inp) (Am.boot img).mem := by
+      refine ⟨?_, ?_⟩
+      · intro n w _ hl
+        have := lookup_map_const _ _ _ _ _ hl
+        simp at this
+      · intro v l j k hmem hd
+        have hdat := ok.const_data v l j k hmem hd
+        obtain ⟨_, hval, _⟩ := hdata (j + 1) v hdat
+        rw [hlabel j k l hd] at hval
+        exact hval
+    have hcore := v2_core G ok fuel (Am.boot img).mem (v2St0 P inp) rfl pm hpm hname cmain
+      (spValue st.cg.globalsOffset) (2 + st.cg.data.length) hhead hstub hg0 hm1'
+    rw [hpmm, hGxc] at hcore
+    have hio : (v2St0 P inp).io = Isa.IOSt.init inp.stdin inp.files := rfl
+    rw [hio] at hcore
+    have hnd' : (labelNames st.lowered).Nodup := by
+      have := ok.nodup
+      rw [hGenv] at this
+      exact this
+    have hboot : bootCfg img = cfg 0 0 0 (Am.boot img).mem := rfl
+    rcases hcases with ⟨r, s, hx, e1, e2, e3⟩ | ⟨code, s, hx, e1, e2, e3⟩
+    · rw [hx] at hcore
+      obtain ⟨c, hsteps, hexit⟩ := hcore
+      rw [hGenv] at hsteps hexit
+      obtain ⟨c', hsteps', hexit'⟩ := peep_run (env' := envOf st.optimised img) hp hnd' _ _ c s.io 0 hsteps hexit
+      obtain ⟨n, j, s', hr⟩ := IAm_refines_Isa g _ c' s.io 0 (by rw [hboot]; exact hsteps') hexit'
+      exact ⟨n, 0, j, s', s.io, hr, e1.symm, e2.symm, e3.symm⟩
+    · rw [hx] at hcore
+      obtain ⟨c, hsteps, hexit⟩ := hcore
+      rw [hGenv] at hsteps hexit
+      obtain ⟨c', hsteps', hexit'⟩ := peep_run (env' := envOf st.optimised img) hp hnd' _ _ c s.io code hsteps hexit
+      obtain ⟨n, j, s', hr⟩ := IAm_refines_Isa g _ c' s.io code (by rw [hboot]; exact hsteps') hexit'
+      exact ⟨n, code, j, s', s.io, hr, e1.symm, e2.symm, e3.symm⟩
+
+/-- **The class V2 with its side conditions, as one decidable predicate of the source program.** -/
+def v2Ok (P : X.Program) : Bool :=
+  match stages P with
+  | .ok st =>
+    match assembleDirs st.optimised with
+    | .ok img => v2Check P st img
+    | .error _ => false
+  | .error _ => false
+
+theorem v2_whole (P : X.Program) (inp : X.Input) (fuel : Nat) (β : X.Behaviour) (img : Image)
+    (hok : v2Ok P = true) (hcomp : compile P = .ok img) (hrun : X.run P inp fuel = .defined β) :
+    ∃ n code j s' io, Isa.run n (Am.boot img) (Isa.IOSt.init inp.stdin inp.files) = .exited code j s' io ∧
+      code = β.exit ∧ io.log.reverse = β.events ∧ inp.stdin.length - io.stdin.length = β.stdinConsumed := by
+  unfold v2Ok at hok
+  split at hok
+  · rename_i st hst
+    have hc : compile P = assembleDirs st.optimised := by
+      unfold compile compileDirs
+      rw [hst]
+      rfl
+    rw [hc] at hcomp
+    rw [hcomp] at hok
+    exact v2_correct P st img inp fuel β hcomp hok hrun
+  · simp at hok
 
 end Hex.C01s
